@@ -2,6 +2,7 @@
 from __future__ import annotations
 import ast
 import re
+from ..pat import Frag
 from ..src import norm, walk_no_nested, AnalysisError
 from .. import sql as S
 
@@ -136,7 +137,7 @@ def r2_normaliser(ctx, res):
 
 def r3_backoff(ctx, res):
     f = ctx.repo.func('_core', '_find_helper')
-    src = norm(f.node)
+    src = Frag(f.node)
     loc = f.module.loc(f.node)
 
     def chk(key, ok, msg):
@@ -178,7 +179,7 @@ def r3_backoff(ctx, res):
 
 def r4_dedupe(ctx, res):
     f = ctx.repo.func('_core', '_find_helper')
-    src = norm(f.node)
+    src = Frag(f.node)
     key = 'dedupe-order-preserving'
     res.inst(key, f.module.loc(f.node), 'seen set + list append')
     loops = [n for n in walk_no_nested(f.node) if isinstance(n, ast.For) and norm(n.iter) == 'results']
